@@ -193,8 +193,8 @@ int vf_main(void) {
         VF_CHECK(vf_log[w][k].state == M_MOD_RUNNING, "only RUNNING modules get their handler run");
     }
     VF_CHECK(vf_evt_not_running == 0, "no handler for a module that is not RUNNING");
-#if POST != 0
-    /* everything has been delivered or discarded by now */
+#if POST != 0 && !(POST == 5 && PAUSEB)
+    /* everything has been delivered or discarded by now (not with B still PAUSED and its mailbox unread: POST 5) */
     for (int i = 0; i < NSEND; i++) {
         if (autofree) VF_CHECK(VF_RELEASED(i), "auto-free payload released exactly once when everybody is done");
         else { VF_CHECK(VF_NOT_RELEASED(i), "payload without the flag is never released by the library"); free(payload[i]); }
